@@ -107,14 +107,14 @@ def data_go(routes):
     out.append("}")
     return "\n".join(out) + "\n"
 
-nrandom = 10 if tier == "quick" else 120
+nrandom = 10 if tier == "quick" else 60
 sets = list(CURATED) + [random_set() for _ in range(nrandom)]
 packages, path_cases, inst_cases, raw_cases = [], [], [], []
-maxn = 4 if tier == "quick" else 7
+maxn = 4 if tier == "quick" else 5
 for si, routes in enumerate(sets):
     name = "r%d" % si
     packages.append({"name": name, "spec": spec_for(routes), "extra_go": {"data.go": data_go(routes)}, "meta": {"routes": routes}})
-    for n in range(0, maxn + 1):
+    for n in range(0, maxn + (2 if tier != "quick" and si < len(CURATED) else 1)):  # thorough: curated sets one byte longer
         for mi in ((0, 1, 2) if tier == "quick" else (0, 1, 2, 3)):
             path_cases.append([si, n, mi, 0])
         if n <= 3:
@@ -136,6 +136,6 @@ print(json.dumps({
     "packages": packages,
     "cases": {tier: [{"entry": "HPath", "args": path_cases}, {"entry": "HInst", "args": inst_cases}, {"entry": "HRawInst", "args": raw_cases}]},
     "bounds": {"route_sets": "%d curated + %d seeded-random sets over statics a,b,ab and parameter forms {x}, a{x}, {x}.j, {x}-{y}; 1..3 segments, 2..4 templates, methods from GET/POST (VERIF_SEED selects the random part)" % (len(CURATED), nrandom),
-               "request_paths": "'/' followed by 0..%d fully symbolic bytes (all 256 values), methods GET/POST/PUT%s, with and without the /api prefix" % (maxn, "" if tier == "quick" else "/OPTIONS"),
+               "request_paths": "'/' followed by 0..%d fully symbolic bytes (all 256 values)%s, methods GET/POST/PUT%s, with and without the /api prefix" % (maxn, "" if tier == "quick" else " (0..6 for the curated sets)", "" if tier == "quick" else "/OPTIONS"),
                "escaped": "every template instance whose first argument is written with a percent-escape (%2F, %2f, %41, a%20b, %c3%A9) sent as RawPath+Path, with and without the /api prefix", "instances": "every template instantiated with symbolic argument values of 1..2 bytes that avoid '/' and the set's tail characters"}
 }))
